@@ -9,19 +9,19 @@ Local Open Scope Z_scope.
 
 Definition p_f23 : params := mkP 0 1 0 [([1;1], false)] false.
 Definition s_f23 : list choice :=
-  [CIo SRBlock 0; CIo SRBlock 0; CIo SRBlock 0; CIo SRBlock 0; CIo SRBlock 0; CIo SRBlock 0; CIo SRBlock 0; CEnv EArrive; CIo SRBlock 0; CIo SRBlock 0; CIo SRBlock 0; CIo SRBlock 0; CIo SRBlock 0; CIo SRBlock 0; CIo SRBlock 0; CIo SRBlock 0; CIo SRBlock 0; CIo SRBlock 0; CW SRBlock; CW SRBlock; CW SRBlock; CW SRBlock; CW SRBlock; CIo SRBlock 0; CW SRBlock; CW SRBlock; CW SRBlock; CW SRBlock; CW SRBlock; CW SRBlock; CW SRBlock; CIo SRBlock 0; CIo SRBlock 0; CIo SRBlock 0; CW SRBlock; CIo SRBlock 0; CIo (SR 1) 0; CIo SRBlock 0; CIo SRBlock 0; CIo SRBlock 0; CIo SRBlock 0; CIo SRBlock 0; CIo SRBlock 0; CIo SRBlock 0; CIo SRBlock 0; CIo SRBlock 0; CIo SRBlock 0].
+  [CIo SRBlock 0; CIo SRBlock 0; CIo SRBlock 0; CIo SRBlock 0; CIo SRBlock 0; CIo SRBlock 0; CIo SRBlock 0; CEnv EArrive; CIo SRBlock 0; CIo SRBlock 0; CIo SRBlock 0; CIo SRBlock 0; CIo SRBlock 0; CIo SRBlock 0; CIo SRBlock 0; CIo SRBlock 0; CIo SRBlock 0; CIo SRBlock 0; CW SRBlock; CW SRBlock; CW SRBlock; CW SRBlock; CW SRBlock; CW SRBlock; CIo SRBlock 0; CW SRBlock; CW SRBlock; CW SRBlock; CW SRBlock; CW SRBlock; CW SRBlock; CW SRBlock; CIo SRBlock 0; CIo SRBlock 0; CIo SRBlock 0; CW SRBlock; CIo SRBlock 0; CIo (SR 1) 0; CIo SRBlock 0; CIo SRBlock 0; CIo SRBlock 0; CIo SRBlock 0; CIo SRBlock 0; CIo SRBlock 0; CIo SRBlock 0; CIo SRBlock 0; CIo SRBlock 0; CIo SRBlock 0].
 
 Definition p_spin : params := mkP 1 3 0 [([2;1], false)] false.
 Definition s_spin : list choice :=
-  [CIo SRBlock 0; CIo SRBlock 0; CIo SRBlock 0; CIo SRBlock 0; CIo SRBlock 0; CIo SRBlock 0; CIo SRBlock 0; CEnv EStall; CEnv EArrive; CIo SRBlock 0; CIo SRBlock 0; CIo SRBlock 0; CIo SRBlock 0; CIo SRBlock 0; CIo SRBlock 0; CIo SRBlock 0; CIo SRBlock 0; CIo SRBlock 0; CIo SRBlock 0; CW SRBlock; CW SRBlock; CW SRBlock; CW SRBlock; CW SRBlock; CIo SRBlock 0; CW SRBlock; CW SRBlock; CW SRBlock; CW SRBlock; CW SRBlock; CIo SRBlock 0; CIo SRBlock 0; CIo SRBlock 0; CIo SRBlock 0; CIo SRBlock 0; CW SRBlock; CEnv EResume].
+  [CIo SRBlock 0; CIo SRBlock 0; CIo SRBlock 0; CIo SRBlock 0; CIo SRBlock 0; CIo SRBlock 0; CIo SRBlock 0; CEnv EStall; CEnv EArrive; CIo SRBlock 0; CIo SRBlock 0; CIo SRBlock 0; CIo SRBlock 0; CIo SRBlock 0; CIo SRBlock 0; CIo SRBlock 0; CIo SRBlock 0; CIo SRBlock 0; CIo SRBlock 0; CW SRBlock; CW SRBlock; CW SRBlock; CW SRBlock; CW SRBlock; CW SRBlock; CIo SRBlock 0; CW SRBlock; CW SRBlock; CW SRBlock; CW SRBlock; CW SRBlock; CIo SRBlock 0; CIo SRBlock 0; CIo SRBlock 0; CIo SRBlock 0; CIo SRBlock 0; CW SRBlock; CEnv EResume].
 
 Definition p_eq : params := mkP 2 3 0 [([3;1], false)] false.
 Definition s_eq : list choice :=
-  [CIo SRBlock 0; CIo SRBlock 0; CIo SRBlock 0; CIo SRBlock 0; CIo SRBlock 0; CIo SRBlock 0; CIo SRBlock 0; CEnv EArrive; CIo SRBlock 0; CIo SRBlock 0; CIo SRBlock 0; CIo SRBlock 0; CIo SRBlock 0; CIo SRBlock 0; CIo SRBlock 0; CIo SRBlock 0; CIo SRBlock 0; CIo SRBlock 0; CW SRBlock; CW SRBlock; CW SRBlock; CW SRBlock; CW SRBlock; CIo SRBlock 0; CW SRBlock; CW SRBlock; CW SRBlock; CW SRBlock; CW SRBlock; CW SRBlock; CW SRBlock; CIo SRBlock 0; CIo SRBlock 0; CIo SRBlock 0; CW SRBlock; CIo SRBlock 0; CIo (SR 1) 0; CIo SRBlock 0; CIo SRBlock 0; CIo SRBlock 0; CIo SRBlock 0; CIo SRBlock 0; CIo SRBlock 0; CIo SRBlock 0; CIo SRBlock 0; CIo SRBlock 0].
+  [CIo SRBlock 0; CIo SRBlock 0; CIo SRBlock 0; CIo SRBlock 0; CIo SRBlock 0; CIo SRBlock 0; CIo SRBlock 0; CEnv EArrive; CIo SRBlock 0; CIo SRBlock 0; CIo SRBlock 0; CIo SRBlock 0; CIo SRBlock 0; CIo SRBlock 0; CIo SRBlock 0; CIo SRBlock 0; CIo SRBlock 0; CIo SRBlock 0; CW SRBlock; CW SRBlock; CW SRBlock; CW SRBlock; CW SRBlock; CW SRBlock; CIo SRBlock 0; CW SRBlock; CW SRBlock; CW SRBlock; CW SRBlock; CW SRBlock; CW SRBlock; CW SRBlock; CIo SRBlock 0; CIo SRBlock 0; CIo SRBlock 0; CW SRBlock; CIo SRBlock 0; CIo (SR 1) 0; CIo SRBlock 0; CIo SRBlock 0; CIo SRBlock 0; CIo SRBlock 0; CIo SRBlock 0; CIo SRBlock 0; CIo SRBlock 0; CIo SRBlock 0; CIo SRBlock 0].
 
 Definition p_tail : params := mkP 2 1 1 [([3], false); ([1], true)] true.
 Definition s_tail : list choice :=
-  [CIo SRBlock 0; CIo SRBlock 0; CIo SRBlock 0; CIo SRBlock 0; CIo SRBlock 0; CIo SRBlock 0; CIo SRBlock 0; CEnv EArrive; CIo SRBlock 0; CIo SRBlock 0; CIo SRBlock 0; CIo SRBlock 0; CIo SRBlock 0; CIo SRBlock 0; CIo SRBlock 0; CIo SRBlock 0; CIo SRBlock 0; CIo SRBlock 0; CIo SRBlock 0; CW SRBlock; CW SRBlock; CW SRBlock; CW SRBlock; CW SRBlock; CIo SRBlock 0; CW SRBlock; CW SRBlock; CW SRBlock; CEnv EArrive; CIo SRBlock 0; CIo SRBlock 0; CIo SRBlock 0; CIo SRBlock 0; CIo SRBlock 0; CIo SRBlock 0; CIo SRBlock 0; CIo SRBlock 0; CIo SRBlock 0; CIo SRBlock 0; CIo SRGone 0; CW SRBlock; CW SRBlock; CIo SRBlock 3; CIo SRBlock 0; CIo SRBlock 0; CIo SRBlock 0; CIo SRBlock 0; CIo SRBlock 0; CIo SRBlock 0; CIo SRBlock 0; CIo SRBlock 0; CIo SRBlock 0; CW SRBlock; CW SRBlock; CW SRBlock; CW SRBlock; CIo SRBlock 0; CIo SRBlock 0].
+  [CIo SRBlock 0; CIo SRBlock 0; CIo SRBlock 0; CIo SRBlock 0; CIo SRBlock 0; CIo SRBlock 0; CIo SRBlock 0; CEnv EArrive; CIo SRBlock 0; CIo SRBlock 0; CIo SRBlock 0; CIo SRBlock 0; CIo SRBlock 0; CIo SRBlock 0; CIo SRBlock 0; CIo SRBlock 0; CIo SRBlock 0; CIo SRBlock 0; CIo SRBlock 0; CW SRBlock; CW SRBlock; CW SRBlock; CW SRBlock; CW SRBlock; CW SRBlock; CIo SRBlock 0; CW SRBlock; CW SRBlock; CW SRBlock; CEnv EArrive; CIo SRBlock 0; CIo SRBlock 0; CIo SRBlock 0; CIo SRBlock 0; CIo SRBlock 0; CIo SRBlock 0; CIo SRBlock 0; CIo SRBlock 0; CIo SRBlock 0; CIo SRBlock 0; CIo SRGone 0; CW SRBlock; CW SRBlock; CIo SRBlock 3; CIo SRBlock 0; CIo SRBlock 0; CIo SRBlock 0; CIo SRBlock 0; CIo SRBlock 0; CIo SRBlock 0; CIo SRBlock 0; CIo SRBlock 0; CIo SRBlock 0; CW SRBlock; CW SRBlock; CW SRBlock; CW SRBlock; CIo SRBlock 0; CIo SRBlock 0].
 
 
 (* F23: high_watermark = 0.  The producer is parked with total_outbufs_len = 0, the
@@ -66,7 +66,7 @@ Proof. vm_compute. repeat split; try reflexivity; try (intro; discriminate). Qed
 
 Definition p_tight : params := mkP 2 100 0 [([2;3], false)] false.
 Definition s_tight : list choice :=
-  [CIo SRBlock 0; CIo SRBlock 0; CIo SRBlock 0; CIo SRBlock 0; CIo SRBlock 0; CIo SRBlock 0; CIo SRBlock 0; CEnv EArrive; CIo SRBlock 0; CIo SRBlock 0; CIo SRBlock 0; CIo SRBlock 0; CIo SRBlock 0; CIo SRBlock 0; CIo SRBlock 0; CIo SRBlock 0; CIo SRBlock 0; CIo SRBlock 0; CW SRBlock; CW SRBlock; CW SRBlock; CW SRBlock; CW SRBlock; CW SRBlock; CW SRBlock; CW SRBlock; CW SRBlock].
+  [CIo SRBlock 0; CIo SRBlock 0; CIo SRBlock 0; CIo SRBlock 0; CIo SRBlock 0; CIo SRBlock 0; CIo SRBlock 0; CEnv EArrive; CIo SRBlock 0; CIo SRBlock 0; CIo SRBlock 0; CIo SRBlock 0; CIo SRBlock 0; CIo SRBlock 0; CIo SRBlock 0; CIo SRBlock 0; CIo SRBlock 0; CIo SRBlock 0; CW SRBlock; CW SRBlock; CW SRBlock; CW SRBlock; CW SRBlock; CW SRBlock; CW SRBlock; CW SRBlock; CW SRBlock; CW SRBlock].
 (* the bound is attained: pending = high_watermark + last write *)
 Example ex_bound_tight :
   let s := run p_tight s_tight in pending s = 5 /\ hw p_tight = 2 /\ last_write s = 3 /\ total s = 5.
@@ -74,7 +74,7 @@ Proof. vm_compute. repeat split. Qed.
 
 Definition p_abort : params := mkP 2 1 0 [([3;1], false)] false.
 Definition s_abort : list choice :=
-  [CIo SRBlock 0; CIo SRBlock 0; CIo SRBlock 0; CIo SRBlock 0; CIo SRBlock 0; CIo SRBlock 0; CIo SRBlock 0; CEnv EArrive; CIo SRBlock 0; CIo SRBlock 0; CIo SRBlock 0; CIo SRBlock 0; CIo SRBlock 0; CIo SRBlock 0; CIo SRBlock 0; CIo SRBlock 0; CIo SRBlock 0; CIo SRBlock 0; CW SRBlock; CW SRBlock; CW SRBlock; CW SRBlock; CW SRBlock; CW SRBlock; CW SRBlock; CW SRBlock; CW SRBlock; CW SRBlock; CW SRBlock; CW SRBlock; CEnv EGone; CIo SRBlock 0; CIo SRBlock 0; CIo SRBlock 0; CIo SRBlock 0; CIo SRBlock 0; CIo SRBlock 0; CIo SRBlock 0; CIo SRBlock 0; CIo SRBlock 0; CIo SRBlock 0; CIo SRBlock 0; CIo SRBlock 0; CIo SRBlock 0; CW SRBlock; CIo SRBlock 0; CIo SRBlock 0; CIo SRGone 0; CIo SRBlock 0; CIo SRBlock 0].
+  [CIo SRBlock 0; CIo SRBlock 0; CIo SRBlock 0; CIo SRBlock 0; CIo SRBlock 0; CIo SRBlock 0; CIo SRBlock 0; CEnv EArrive; CIo SRBlock 0; CIo SRBlock 0; CIo SRBlock 0; CIo SRBlock 0; CIo SRBlock 0; CIo SRBlock 0; CIo SRBlock 0; CIo SRBlock 0; CIo SRBlock 0; CIo SRBlock 0; CW SRBlock; CW SRBlock; CW SRBlock; CW SRBlock; CW SRBlock; CW SRBlock; CW SRBlock; CW SRBlock; CW SRBlock; CW SRBlock; CW SRBlock; CW SRBlock; CW SRBlock; CEnv EGone; CIo SRBlock 0; CIo SRBlock 0; CIo SRBlock 0; CIo SRBlock 0; CIo SRBlock 0; CIo SRBlock 0; CIo SRBlock 0; CIo SRBlock 0; CIo SRBlock 0; CIo SRBlock 0; CIo SRBlock 0; CIo SRBlock 0; CIo SRBlock 0; CW SRBlock; CIo SRBlock 0; CIo SRBlock 0; CIo SRGone 0; CIo SRBlock 0; CIo SRBlock 0].
 (* a producer parked above the mark while handle_close runs: the state C12_abort talks about *)
 Example ex_abort_state :
   let s := run p_abort s_abort in
